@@ -2095,7 +2095,8 @@ def add(
                 # Also add unstaged (modified) files within this directory
                 for unstaged_path in all_unstaged_paths:
                     if isinstance(unstaged_path, bytes):
-                        unstaged_path_str = unstaged_path.decode("utf-8")
+                        # A file name is not necessarily valid UTF-8
+                        unstaged_path_str = os.fsdecode(unstaged_path)
                     else:
                         unstaged_path_str = unstaged_path
 
